@@ -267,6 +267,79 @@ func (r *runner) current(n *lab.Node, db string) (*oracle.Image, bool) {
 	return img, ok
 }
 
+// forward plays a foreign node that takes the halt lock of db on the primary over HTTP, sends one transaction
+// file and releases the lock. kind: ok (the next transaction), overlap (a range that starts at the primary's
+// current TXID and ends at the next), gap (starts two ahead), again (the current TXID once more). Only "ok"
+// extends the position; the others must be refused and leave position, image and log as they are.
+func (r *runner) forward(db, kind string) bool {
+	p := r.c.Primary()
+	if p == nil || p.DB(db) == nil {
+		return true
+	}
+	cur, ok := r.current(p, db)
+	if !ok || cur.N() < 2 {
+		return true
+	}
+	cl := lfshttp.NewClient()
+	cl.HTTPClient = &http.Client{Transport: r.c.Net.Transport("X")}
+	ctx, cancel := context.WithTimeout(context.Background(), 20*time.Second)
+	defer cancel()
+	const node, lockID = 0xF00D, 4711
+	hl, err := cl.AcquireHaltLock(ctx, "http://"+p.Cfg.Name, node, db, lockID)
+	if err != nil {
+		r.viol("C13/acquire-failed/fwd", "POST /halt for %q on primary %s failed: %v", db, p.Cfg.Name, err)
+		return false
+	}
+	defer func() { _ = cl.ReleaseHaltLock(context.Background(), "http://"+p.Cfg.Name, node, db, lockID) }()
+	pos := hl.Pos
+	next := cur.Clone()
+	next.Pages[1] = pager.MakePage(cur.PageSize, 2, 0xF0000000+uint32(pos.TXID))
+	min, max := pos.TXID+1, pos.TXID+1
+	switch kind {
+	case "overlap":
+		min = pos.TXID
+	case "gap":
+		min, max = pos.TXID+2, pos.TXID+2
+	case "again":
+		min, max = pos.TXID, pos.TXID
+	}
+	if min < 2 {
+		return true
+	}
+	var b bytes.Buffer
+	enc := ltx.NewEncoder(&b)
+	_ = enc.EncodeHeader(ltx.Header{Version: 1, PageSize: uint32(cur.PageSize), Commit: next.N(), MinTXID: min, MaxTXID: max, Timestamp: time.Now().UnixMilli(), PreApplyChecksum: pos.PostApplyChecksum, NodeID: node})
+	_ = enc.EncodePage(ltx.PageHeader{Pgno: 2}, next.Pages[1])
+	enc.SetPostApplyChecksum(ltx.Checksum(next.Checksum()))
+	if err := enc.Close(); err != nil {
+		r.res.Harness = "fwd: encode: " + err.Error()
+		return false
+	}
+	before := p.DB(db).Pos()
+	names := mon.ListLTX(p.DB(db).LTXDir())
+	err = cl.Commit(ctx, "http://"+p.Cfg.Name, node, db, lockID, io.NopCloser(bytes.NewReader(b.Bytes())))
+	after := p.DB(db).Pos()
+	if kind == "ok" {
+		if err != nil {
+			r.viol("C13/forwarded-commit-failed/fwd", "a transaction extending the position of %q, forwarded under the halt lock, was refused: %v", db, err)
+			return false
+		}
+		r.record(db, after, next)
+		return true
+	}
+	if err == nil {
+		r.viol("C06/bad-file-accepted/fwd-"+kind, "POST /tx with a file covering %s-%s (kind %s) at position %s of %q was accepted", min, max, kind, before, db)
+	}
+	if after != before {
+		r.viol("C06/position-moved/fwd-"+kind, "POST /tx with a file covering %s-%s (kind %s) moved %q from %s to %s", min, max, kind, db, before, after)
+		return false
+	}
+	if now := mon.ListLTX(p.DB(db).LTXDir()); fmt.Sprint(now) != fmt.Sprint(names) {
+		r.viol("C09/log-changed/fwd-"+kind, "POST /tx with a file covering %s-%s (kind %s) changed the transaction log of %q: %v -> %v", min, max, kind, db, names, now)
+	}
+	return true
+}
+
 func (r *runner) nextOwner() uint64 { r.own++; return 100 + r.own }
 
 func (r *runner) createDB(name string, pages uint32, wal bool) bool {
@@ -571,6 +644,8 @@ func (r *runner) apply(ev string) bool {
 		if p := r.c.Primary(); p != nil && r.fcs[p.Cfg.Name] != nil {
 			r.fcs[p.Cfg.Name].Arm = f[1]
 		}
+	case "fwd":
+		return r.forward(f[1], f[2])
 	case "burst":
 		return r.burst(f[1], 257)
 	default:
@@ -942,6 +1017,13 @@ func (r *runner) enabled() []string {
 				continue
 			}
 			out = append(out, "tx:"+db+":"+sh)
+		}
+		if db == "a" && cur.N() >= 2 {
+			for _, k := range []string{"ok", "overlap", "gap", "again"} {
+				if has("fwd:" + k) {
+					out = append(out, "fwd:"+db+":"+k)
+				}
+			}
 		}
 		if has("drop") {
 			out = append(out, "drop:"+db)
